@@ -227,7 +227,7 @@ class Gen:
         else:
             spec = "%s/%s%s%s" % (name, f, bits or "", sfx)
         self._c["specs"].append(spec)
-        self._c["actual"].append(["int", w])
+        self._c["actual"].append(["int", w, list(where)])
         self._c["tags"] += ["fmt=" + f, "bits=%s" % (bits or "dflt")]
         if low in (100000, 100001, (1 << (bits or 64)) - 100000, (1 << (bits or 64)) - 100001):
             self._c["tags"].append("int=+-100000")
@@ -245,7 +245,7 @@ class Gen:
         self.put(where, w)
         bits = r.choice(["", "", "8", "16", "32"])       # /c64 is a known-defect class: dedicated witness only
         self._c["specs"].append(name + "/c" + bits + sfx)
-        self._c["actual"].append(["int", w])
+        self._c["actual"].append(["int", w, list(where)])
         self._c["tags"].append("fmt=c")
 
     def add_str(self, n=None, addressing=None):
@@ -316,7 +316,7 @@ class Gen:
         else:
             w = r.choice([0, 1, 0x1000, r.getrandbits(47), r.getrandbits(20)])
             self.put(where, w)
-            self._c["actual"].append(["int", w])
+            self._c["actual"].append(["int", w, list(where)])
             self._c["tags"].append("ptr=0" if w == 0 else "ptr=number")
         self._c["specs"].append(name + "/p" + sfx)
 
@@ -361,12 +361,12 @@ class Gen:
             w, _ = self.boundary_int(bits or 64)
             c["ret"][0] = w
             c["rspecs"].append("retval" + ("/%s%s" % (f, bits or "") if bits or f != "d" else ""))
-            c["ractual"].append(["int", w])
+            c["ractual"].append(["int", w, ["ret", 0]])
         elif k == "char":
             w = r.getrandbits(64)
             c["ret"][0] = w
             c["rspecs"].append("retval/c")
-            c["ractual"].append(["int", w])
+            c["ractual"].append(["int", w, ["ret", 0]])
         elif k == "ptr":
             fk = r.randrange(32)
             c["ret"][0] = "@F%d" % fk
@@ -682,11 +682,35 @@ class Impl:
 
 
 # ================================================================== Coq terms
+def num(x):
+    """Coq numeral (hex for big numbers: decimal literals are converted slowly)"""
+    x = int(x)
+    return str(x) if x < 1000 else hex(x)
+
+
 def nlist(b):
-    return "[" + "; ".join(str(x) for x in b) + "]"
+    return "[" + "; ".join(num(x) for x in b) + "]"
+
+
+def blist(b):
+    """byte string as a Coq term, run-length coded (see Model.unrle)"""
+    b = bytes(b)
+    out, i, n = [], 0, len(b)
+    while i < n:
+        j = i
+        while j < n and b[j] == b[i]:
+            j += 1
+        if j - i >= 3:
+            out.append(str((j - i) * 256 + b[i]))
+        else:
+            out += [str(b[i])] * (j - i)
+        i = j
+    return "(unrle [" + "; ".join(out) + "])"
 
 
 def coq_spec(sp):
+    if not sp["regs"] and not sp["name"] and sp["u"] >= 0:
+        return "(Sp %d %s %d %s %d)" % (sp["idx"], FMTS[sp["fmt"]], sp["size"], TYPES[sp["type"]], sp["u"])
     return ("{| s_idx := %d; s_fmt := %s; s_size := %d; s_type := %s; s_u := (%d)%%Z; s_regs := [%s]; s_name := %s |}"
             % (sp["idx"], FMTS[sp["fmt"]], sp["size"], TYPES[sp["type"]], sp["u"],
                "; ".join("(%d)%%Z" % x for x in sp["regs"]), nlist(sp["name"].encode())))
@@ -715,13 +739,15 @@ def cobjs(c):
 
 def coq_aval(c, a):
     if a[0] == "int":
-        return "AInt %d" % resolve(c, a[1])
+        if len(a) > 2:                       # the word the caller placed in this register / stack slot / rax
+            return "%s i %d" % ({"reg": "ARegAt", "stack": "AStkAt", "ret": "ARetAt"}[a[2][0]], a[2][1])
+        return "AInt %s" % num(resolve(c, a[1]))
     if a[0] == "str":
-        return "AStr %s" % nlist(cstrings(c)[a[1]])
+        return "AStrAt i %s" % num(c["env"]["saddr"][a[1]])
     if a[0] == "null":
         return "ANull"
     if a[0] == "bad":
-        return "ABad %d" % c["env"]["bad"]
+        return "ABad %s" % num(c["env"]["bad"])
     if a[0] == "sym":
         return "ASym %s" % nlist(b"fn%02d" % (a[1] % 32))
     if a[0] == "flt":
@@ -738,25 +764,39 @@ def coq_case(c):
     stk = stk + [0] * (23 - len(stk)) + [SENTINEL_RET]
     inp = ("{| regs := %s; xmm := []; stk := %s; rets := %s; strs := [%s]; wrds := [%s] |}"
            % (nlist(resolve(c, w) for w in c["regs"]), nlist(stk), nlist(resolve(c, w) for w in c["ret"]),
-              "; ".join("(%d, %s)" % (c["env"]["saddr"][i], nlist(s)) for i, s in sorted(strs.items())),
-              "; ".join("(%d, %d)" % (c["env"]["saddr"][i] + 8 * j, resolve(c, w))
+              "; ".join("(%s, %s)" % (num(c["env"]["saddr"][i]), blist(s)) for i, s in sorted(strs.items())),
+              "; ".join("(%s, %s)" % (num(c["env"]["saddr"][i] + 8 * j), num(resolve(c, w)))
                         for i, ws in sorted(objs.items()) for j, w in enumerate(ws))))
     f0 = c["env"]["f0"]
     t = c["times"]
-    call = ("{| c_specs := [%s]; c_inp := %s; c_fill := %d; c_addr := %d; c_t0 := %d; c_t1 := %d; c_t2 := %d; "
-            "c_t3 := %d; c_child := %d; c_has_args := %s; c_has_ret := %s |}"
-            % ("; ".join(coq_spec(s) for s in specs), inp, FILL, f0 + 256 * c["k"] + 4, t[0], t[1], t[2], t[3], f0 + 4,
+    call = ("{| c_specs := [%s]; c_inp := i; c_fill := %d; c_addr := %s; c_t0 := %s; c_t1 := %s; c_t2 := %s; "
+            "c_t3 := %s; c_child := %s; c_has_args := %s; c_has_ret := %s |}"
+            % ("; ".join(coq_spec(s) for s in specs), FILL, num(f0 + 256 * c["k"] + 4), num(t[0]), num(t[1]), num(t[2]),
+               num(t[3]), num(f0 + 4),
                coq.coq_bool(bool(c["specs"])), coq.coq_bool(bool(c["rspecs"]))))
     o = c["obs"]
-    obs = ("{| o_img_entry := %s; o_img_exit := %s; o_stream := %s; o_args_text := %s; o_ret_text := %s |}"
-           % (nlist(o["img_entry"]), nlist(o["img_exit"]), nlist(o["stream"]),
-              nlist(o["args_text"] if o["args_text"] is not None else b"\0?"),
-              nlist(o["ret_text"] if o["ret_text"] is not None else b"\0?")))
-    judged = ("{| j_args := [%s]; j_ret := [%s]; j_obs := %s |}"
-              % ("; ".join("(%s, %s)" % (coq_spec(s), coq_aval(c, a)) for s, a in zip(c["pspecs"], c["actual"])),
-                 "; ".join("(%s, %s)" % (coq_spec(s), coq_aval(c, a)) for s, a in zip(c["prspecs"], c["ractual"])),
-                 obs))
-    return "(%s, %s)" % (call, obs), judged
+    imgs = []
+    for img, flag, which in ((o["img_entry"], o["flags_entry"] & FL_ARGUMENT, "first"),
+                             (o["img_exit"], o["flags_exit"] & FL_RETVAL, "last")):
+        cut = None
+        if flag and len(img) >= 4:
+            n = int.from_bytes(img[:4], "little")
+            st = o["stream"]
+            pl = st[16:16 + n] if which == "first" else st[len(st) - ALIGN(n, 8):][:n]
+            imgp = img.ljust(4 + n, bytes([FILL]))
+            if n <= 4096 and len(pl) == n and imgp[4:4 + n] == pl:
+                cut, img = n, imgp[:4] + imgp[4 + n:]
+        imgs.append((img, cut))
+    obs = ("{| o_img_entry := %s; o_img_exit := %s; o_cut_entry := %s; o_cut_exit := %s; o_stream := %s; "
+           "o_args_text := %s; o_ret_text := %s |}"
+           % (blist(imgs[0][0]), blist(imgs[1][0]),
+              "None" if imgs[0][1] is None else "Some %d" % imgs[0][1],
+              "None" if imgs[1][1] is None else "Some %d" % imgs[1][1], blist(o["stream"]),
+              blist(o["args_text"] if o["args_text"] is not None else b"\0?"),
+              blist(o["ret_text"] if o["ret_text"] is not None else b"\0?")))
+    return ("(let i := %s in {| t_call := %s; t_obs := %s; t_aargs := [%s]; t_aret := [%s] |})"
+            % (inp, call, obs, "; ".join(coq_aval(c, a) for a in c["actual"]),
+               "; ".join(coq_aval(c, a) for a in c["ractual"])))
 
 
 PRE = """From Coq Require Import NArith ZArith List Bool.
@@ -772,13 +812,11 @@ def evaluate(ctx, batches, name="cases"):
     defs, evals = [], []
     for bi, cases in enumerate(batches):
         f0 = cases[0]["env"]["f0"]
-        syms = "; ".join("(%d, %d, %s)" % (f0 + 256 * k, mch.SIZES[k], nlist(b"fn%02d" % k)) for k in range(32))
-        terms = [coq_case(c) for c in cases]
+        syms = "; ".join("(%s, %d, %s)" % (num(f0 + 256 * k), mch.SIZES[k], nlist(b"fn%02d" % k)) for k in range(32))
         defs.append("Definition syms%d : symtab := [%s]." % (bi, syms))
-        defs.append("Definition cases%d : list (call * observation) := [\n%s\n]." % (bi, ";\n".join(t[0] for t in terms)))
-        defs.append("Definition judged%d : list judged := [\n%s\n]." % (bi, ";\n".join(t[1] for t in terms)))
-        evals.append(("mismatch%d" % bi, "bad_indices (agrees syms%d) cases%d 0" % (bi, bi)))
-        evals.append(("violations%d" % bi, "bad_indices ok_call judged%d 0" % bi))
+        defs.append("Definition cases%d : list tcase := [\n%s\n]." % (bi, ";\n".join(coq_case(c) for c in cases)))
+        evals.append(("mismatch%d" % bi, "bad_indices (t_agrees syms%d) cases%d 0" % (bi, bi)))
+        evals.append(("violations%d" % bi, "bad_indices t_ok cases%d 0" % bi))
     res = coq.run_cases(ctx, name, PRE, "\n".join(defs), evals)
     if res is None:
         return None
@@ -792,14 +830,13 @@ def evaluate(ctx, batches, name="cases"):
 def model_detail(ctx, c, name="detail"):
     """the model's observation for one case, for the replay file of a disagreement"""
     f0 = c["env"]["f0"]
-    syms = "; ".join("(%d, %d, %s)" % (f0 + 256 * k, mch.SIZES[k], nlist(b"fn%02d" % k)) for k in range(32))
-    t = coq_case(c)
-    defs = "Definition syms : symtab := [%s].\nDefinition cc := %s.\n" % (syms, t[0])
-    res = coq.run_cases(ctx, name, PRE, defs, [("img_entry", "o_img_entry (model_call syms (fst cc))"),
-                                               ("img_exit", "o_img_exit (model_call syms (fst cc))"),
-                                               ("stream", "o_stream (model_call syms (fst cc))"),
-                                               ("args_text", "o_args_text (model_call syms (fst cc))"),
-                                               ("ret_text", "o_ret_text (model_call syms (fst cc))")])
+    syms = "; ".join("(%s, %d, %s)" % (num(f0 + 256 * k), mch.SIZES[k], nlist(b"fn%02d" % k)) for k in range(32))
+    defs = "Definition syms : symtab := [%s].\nDefinition cc := t_call %s.\n" % (syms, coq_case(c))
+    res = coq.run_cases(ctx, name, PRE, defs, [("img_entry", "o_img_entry (model_call syms cc)"),
+                                               ("img_exit", "o_img_exit (model_call syms cc)"),
+                                               ("stream", "o_stream (model_call syms cc)"),
+                                               ("args_text", "o_args_text (model_call syms cc)"),
+                                               ("ret_text", "o_ret_text (model_call syms cc)")])
     if res is None:
         return None
     return {k: bytes(coq.parse_nat_list(v)) for k, v in res.items()}
